@@ -366,8 +366,10 @@ StringDictionaryHHTFC::StringDictionaryHHTFC(IteratorDictString *it,
     }
 
     // The closing byte is part of the sequence: it must be the zero padding
-    // the decoding tables were built for
-    textStrings[bytesStrings] = 0;
+    // the decoding tables were built for (when bits of the last string are
+    // pending it is their byte)
+    if (offset == 0)
+      textStrings[bytesStrings] = 0;
     bytesStrings++;
     xblStrings.push_back(bytesStrings);
     blStrings = new LogSequence(&xblStrings, bits(bytesStrings));
